@@ -244,6 +244,8 @@ package dns
 //@ func unpackMsgHdr [C01 C02]
 //@   requires 0 <= off
 //@   ensures ok:   ret2 == nil ==> ret1 == off + 12 && ret1 <= len(msg)
+// RFC 1035 4.1.1: six big-endian 16-bit words - ID, flags, QDCOUNT, ANCOUNT, NSCOUNT, ARCOUNT
+//@   ensures words: ret2 == nil ==> ret0.Id == msg[off] * 256 + msg[off+1] && ret0.Bits == msg[off+2] * 256 + msg[off+3] && ret0.Qdcount == msg[off+4] * 256 + msg[off+5] && ret0.Ancount == msg[off+6] * 256 + msg[off+7] && ret0.Nscount == msg[off+8] * 256 + msg[off+9] && ret0.Arcount == msg[off+10] * 256 + msg[off+11]
 
 //@ func (*Msg).setHdr [C01 C02 C14]
 
@@ -335,3 +337,20 @@ package dns
 //@   ensures fail:  ret1 != nil ==> ret0 == len(msg)
 //@   ensures frame: forall k in 0..off :: msg[k] == old(msg[k])
 //@   writes msg
+
+// RFC 3597 generic form <-> typed record: the known record is packed uncompressed from offset 0 and the generic
+// record takes exactly its RDATA octets (header copied, RDLENGTH = octets after the header); the other way the
+// hex text is decoded and handed, from offset 0, to the typed record's own unpacker with RDLENGTH = octets decoded
+//@ func (*RFC3597).ToRFC3597 [C01 C05]
+//@   opt no-safety
+//@   requires rr != nil && r != nil
+//@   callsite "packRR" plain: arg0 == r && same(arg1, buf) && arg2 == 0 && !arg4
+//@   callsite "unpack" rdata: ref(arg1) == ref(buf) && len(arg1) == callres("packRR", 1) && arg2 == callres("packRR", 0)
+//@   stored at "rr.Hdr.Rdlength = uint16(off - headerEnd)" rdlen: value == (callres("packRR", 1) - callres("packRR", 0)) % 65536
+//@ func (*RFC3597).fromRFC3597 [C01 C05]
+//@   opt no-safety
+//@   requires rr != nil && r != nil
+//@   callsite "DecodeString" hex: arg0 == rr.Rdata
+//@   callsite "unpack" whole: same(arg0, callres("DecodeString", 0)) && arg1 == 0
+//@   stored at "hdr.Rdlength = uint16(hex.DecodedLen(len(rr.Rdata)))" rdlen: value == callres("DecodedLen") % 65536
+//@   callsite "DecodedLen" text: arg0 == len(rr.Rdata)
